@@ -214,6 +214,13 @@ def run(ctx):
         ti = prog.type_info(ev.d['ty'])
         bufs[ev.d['var']] = Lin(ti['n'])
     an = EncAnalysis(prog, d, bufs, init=[Lin(1) - Lin.term(lp)], summaries={'my_strlcpy': strl_summary, 'my_strlcat': strl_summary}).run()
+    import os, sys
+    if os.environ.get('QBDBG'):
+        for (b, i), sts in sorted(an.states.items()):
+            ev = d.blocks[b].events[i]
+            if ev.ln in (int(x) for x in os.environ['QBDBG'].split(',')):
+                for st in sts:
+                    print('DBGSTATE', ev.ln, ev.kind, [f for f in st.facts if 'fmt_pos' in f.t or 'mod_pos' in f.t], file=sys.stderr)
     n = report(ctx, an, 'deserialize', 'R2')
     if n < 20:
         raise AnalysisBroken('qb_vsnprintf_deserialize: only %d store obligations' % n)
@@ -302,9 +309,35 @@ def r3(ctx, e, d):
 
         # 'l' raises the first flag at once (in the block the case label starts) and the second one only when another 'l' follows
         visits, _t = abstract_run(f, {}, tracked=set(), start=tg['l'], barrier=barrier)
-        ups = [(ev.blk, estr(ev.lhs)) for (ev, _e) in visits if ev.kind == 'STORE' and estr(ev.lhs) in cand and cval(unwrap(ev.rhs)) not in (0, None)]
-        lng = {n for (b, n) in ups if b == tg['l']}
-        sec = {n for (b, n) in ups if b != tg['l']} - lng
+        ups = [(ev, estr(ev.lhs)) for (ev, _e) in visits if ev.kind == 'STORE' and estr(ev.lhs) in cand and cval(unwrap(ev.rhs)) not in (0, None)]
+        # raised at once = on every way from the case label back to the switch; conditionally = on some only
+        def always(name):
+            stores = [ev for (ev, n) in ups if n == name]
+            hits, _e, _n = f.search(('block', tg['l']), goal=lambda ev: ev.kind == 'BARRIER', stop=lambda ev: any(ev is s_ for s_ in stores),
+                                    edge_filter=lambda fb, t, lab: True)
+            # reachability of a barrier block without passing a store
+            seen, work = set(), [(tg['l'], 0)]
+            while work:
+                b, i = work.pop()
+                if (b, i) in seen:
+                    continue
+                seen.add((b, i))
+                blk = f.blocks[b]
+                stopped = False
+                for ev in blk.events[i:]:
+                    if any(ev is s_ for s_ in stores):
+                        stopped = True
+                        break
+                if stopped:
+                    continue
+                for (t, _l) in blk.succs:
+                    if t in barrier:
+                        return False
+                    work.append((t, 0))
+            return True
+        names = {n for (_ev, n) in ups}
+        lng = {n for n in names if always(n)}
+        sec = names - lng
         if len(lng) != 1 or len(sec) != 1:
             raise AnalysisBroken('%s: the l modifier raises %s at once and %s conditionally (expected one flag each)' % (f.name, sorted(lng), sorted(sec)))
         return [lng.pop(), sec.pop()]
